@@ -104,7 +104,11 @@ func (opts GeneratorOptions) setFields(
 		for i := 0; i < n; i++ {
 			f := fields.Get(i)
 			if !rapid.Bool().Draw(t, fmt.Sprintf("gen-%s", f.Name())) {
-				if (f.Kind() == protoreflect.MessageKind) && !opts.DisallowNilMessages {
+				// a message-typed field may be left unset, unless an option or the
+				// schema says otherwise: NoEmptyLists covers lists of messages too
+				skippable := f.Kind() == protoreflect.MessageKind && !opts.DisallowNilMessages &&
+					!(f.IsList() && opts.NoEmptyLists)
+				if skippable {
 					continue
 				}
 			}
